@@ -149,7 +149,7 @@ func cmdVerify(args []string) {
 			for _, o := range r.Obls {
 				if strings.Contains(o.Name, *dump) {
 					if dumpQF {
-						fmt.Println(o.query(true, true))
+						fmt.Println(o.queryMode(true, true, os.Getenv("GOCV_DUMPQF") == "plain"))
 					} else {
 						fmt.Println(o.Query(true))
 					}
